@@ -9,6 +9,7 @@ import (
 	"net"
 	"net/http"
 	"net/url"
+	"os"
 	"strconv"
 	"strings"
 	"sync"
@@ -20,20 +21,26 @@ import (
 	log "github.com/sirupsen/logrus"
 )
 
-// FreePorts returns n distinct free TCP ports.
+// FreePorts returns n distinct free TCP ports. They are drawn at random from below the kernel's
+// ephemeral range, so that neither outgoing connections of this or other processes nor concurrently
+// running checks are likely to take a port between the probe and the bind.
 func FreePorts(n int) []int {
-	var ls []net.Listener
+	seed := uint64(os.Getpid())*0x9E3779B97F4A7C15 ^ uint64(time.Now().UnixNano())
+	r := &Rng{s: seed}
 	var ps []int
-	for i := 0; i < n; i++ {
-		l, err := net.Listen("tcp", "127.0.0.1:0")
-		if err != nil {
-			panic(err)
+	seen := map[int]bool{}
+	for len(ps) < n {
+		p := 10000 + r.Intn(22000)
+		if seen[p] {
+			continue
 		}
-		ls = append(ls, l)
-		ps = append(ps, l.Addr().(*net.TCPAddr).Port)
-	}
-	for _, l := range ls {
+		l, err := net.Listen("tcp", ":"+strconv.Itoa(p))
+		if err != nil {
+			continue
+		}
 		l.Close()
+		seen[p] = true
+		ps = append(ps, p)
 	}
 	return ps
 }
